@@ -60,7 +60,7 @@ type rchainVec struct {
 
 // runRChain builds the chain lims[0] over lims[1] over ... over a fresh
 // scripted source and replays the steps; fail is the first disagreeing step.
-func runRChain(lims []int, variant int, steps []chainStep, nsteps, ncalls *int64) (fail int, what string, got readObs, how string, herr error) {
+func runRChain(lims []int, rot, variant int, steps []chainStep, nsteps, ncalls *int64) (fail int, what string, got readObs, how string, herr error) {
 	src := &scriptedReader{salt: 0}
 	var sink bytes.Buffer
 	readers := make([]io.Reader, len(lims))
@@ -70,7 +70,7 @@ func runRChain(lims []int, variant int, steps []chainStep, nsteps, ncalls *int64
 		if i < len(lims)-1 {
 			below, how = between(variant, below, &sink)
 		}
-		readers[i] = ioutil.LimitReader(below, uint64(lims[i]))
+		readers[i] = ioutil.LimitReader(below, realLimit(lims[i], rot))
 		below = readers[i]
 	}
 	for i, st := range steps {
@@ -91,21 +91,21 @@ func runRChain(lims []int, variant int, steps []chainStep, nsteps, ncalls *int64
 		if st.Buf == 0 && st.Called && !got.Called && got.Panic == "" && got.N == 0 && got.Err == "nil" {
 			return -1, "", got, how, nil
 		}
-		if what = diffRead(st.readObs, got, st.ELim); what != "" {
+		if what = diffRead(st.readObs, got, realLimit(int(st.ELim), rot)); what != "" {
 			return i, what, got, how, nil
 		}
 	}
 	return -1, "", got, how, nil
 }
 
-func rchainKey(lims []int, how string, steps []chainStep) string {
+func rchainKey(lims []int, rot int, how string, steps []chainStep) string {
 	var b strings.Builder
 	b.WriteString("LimitReader chain ")
 	for i, l := range lims {
 		if i > 0 {
 			b.WriteString(" over ")
 		}
-		fmt.Fprintf(&b, "L%d(n=%d)", i+1, l)
+		fmt.Fprintf(&b, "L%d(n=%s)", i+1, limName(l, rot))
 	}
 	if how != "direct" {
 		b.WriteString(" with " + how + " in between")
@@ -152,7 +152,7 @@ func replayRChain(args []string) error {
 				}
 			}
 		}
-		fail, what, got, how, herr := runRChain(v.Lims, variant, v.Steps, &steps, &calls)
+		fail, what, got, how, herr := runRChain(v.Lims, n, variant, v.Steps, &steps, &calls)
 		if herr != nil {
 			return herr
 		}
@@ -167,7 +167,7 @@ func replayRChain(args []string) error {
 			short = append(short, v.Steps[fail])
 			path := v.Steps[:fail+1]
 			var s2, c2 int64
-			if f2, w2, g2, _, _ := runRChain(v.Lims, variant, short, &s2, &c2); f2 >= 0 {
+			if f2, w2, g2, _, _ := runRChain(v.Lims, n, variant, short, &s2, &c2); f2 >= 0 {
 				path, what, got = short[:f2+1], w2, g2
 			}
 			enc := make([][]any, 0, len(path))
@@ -178,7 +178,7 @@ func replayRChain(args []string) error {
 				}
 				enc = append(enc, []any{st.Entry, st.Buf, c, st.Req, st.K, st.RErr, st.N, st.Err, st.ELim, st.From})
 			}
-			res.Mismatch(rchainKey(v.Lims, how, path), what, map[string]any{"limits": v.Lims, "variant": variant,
+			res.Mismatch(rchainKey(v.Lims, n, how, path), what, map[string]any{"limits": v.Lims, "variant": variant,
 				"predicted": path[len(path)-1], "observed": got, "chain_path": enc})
 		}
 		return nil
@@ -212,7 +212,7 @@ type wchainVec struct {
 	Steps []wchainStep `json:"steps"`
 }
 
-func runWChain(lims []int, variant int, steps []wchainStep, nsteps, ncalls *int64) (fail int, what string, got writeObs, how string, herr error) {
+func runWChain(lims []int, rot, variant int, steps []wchainStep, nsteps, ncalls *int64) (fail int, what string, got writeObs, how string, herr error) {
 	sinkW := &scriptedWriter{}
 	writers := make([]io.Writer, len(lims))
 	var below io.Writer = sinkW
@@ -221,7 +221,7 @@ func runWChain(lims []int, variant int, steps []wchainStep, nsteps, ncalls *int6
 		if i < len(lims)-1 && variant == 1 {
 			below, how = io.MultiWriter(below), "io.MultiWriter(one)"
 		}
-		writers[i] = ioutil.NewTruncatedWriter(below, uint(lims[i]))
+		writers[i] = ioutil.NewTruncatedWriter(below, uint(realLimit(lims[i], rot)))
 		below = writers[i]
 	}
 	total := 0
@@ -245,14 +245,14 @@ func runWChain(lims []int, variant int, steps []wchainStep, nsteps, ncalls *int6
 	return -1, "", got, how, nil
 }
 
-func wchainKey(lims []int, how string, steps []wchainStep) string {
+func wchainKey(lims []int, rot int, how string, steps []wchainStep) string {
 	var b strings.Builder
 	b.WriteString("TruncatedWriter chain ")
 	for i, l := range lims {
 		if i > 0 {
 			b.WriteString(" into ")
 		}
-		fmt.Fprintf(&b, "L%d(n=%d)", i+1, l)
+		fmt.Fprintf(&b, "L%d(n=%s)", i+1, limName(l, rot))
 	}
 	if how != "direct" {
 		b.WriteString(" with " + how + " in between")
@@ -289,7 +289,7 @@ func replayWChain(args []string) error {
 		if n%3 == 0 {
 			variant = 1
 		}
-		fail, what, got, how, herr := runWChain(v.Lims, variant, v.Steps, &steps, &calls)
+		fail, what, got, how, herr := runWChain(v.Lims, n, variant, v.Steps, &steps, &calls)
 		if herr != nil {
 			return herr
 		}
@@ -303,7 +303,7 @@ func replayWChain(args []string) error {
 				}
 				enc = append(enc, []any{st.Entry, st.Len, c, st.Req, st.From, st.J, st.WErr, st.N, st.Err})
 			}
-			res.Mismatch(wchainKey(v.Lims, how, path), what, map[string]any{"limits": v.Lims, "variant": variant,
+			res.Mismatch(wchainKey(v.Lims, n, how, path), what, map[string]any{"limits": v.Lims, "variant": variant,
 				"predicted": path[len(path)-1], "observed": got, "chain_path": enc})
 		}
 		return nil
